@@ -91,7 +91,9 @@ fn a85_full<const KF: usize>() {
     // whose value fits 32 bits and is non-zero, i.e. exactly the images of the encoder
     let dg: [u8; 5] = kani::any();
     kani::assume(dg[0] < 85 && dg[1] < 85 && dg[2] < 85 && dg[3] < 85 && dg[4] < 85);
-    let v64 = dg[0] as u64 * 52200625 + dg[1] as u64 * 614125 + dg[2] as u64 * 7225 + dg[3] as u64 * 85 + dg[4] as u64;
+    // (Horner form, the same association the decoder uses: equivalence of two differently associated
+    // multiplier trees is a notoriously hard SAT instance, this one is easy)
+    let v64 = (((dg[0] as u64 * 85 + dg[1] as u64) * 85 + dg[2] as u64) * 85 + dg[3] as u64) * 85 + dg[4] as u64;
     kani::assume(v64 != 0 && v64 <= u32::MAX as u64);
     let v = v64 as u32;
     kani::assume(known::a85_full::<KF>(v));
@@ -115,7 +117,7 @@ fn a85_z_partial1<const KF: usize>() {
     let d0: u8 = kani::any();
     let d1: u8 = kani::any();
     kani::assume(d0 < 85 && d1 < 85);
-    let lo = d0 as u64 * 52200625 + d1 as u64 * 614125;
+    let lo = (((d0 as u64 * 85 + d1 as u64) * 85) * 85) * 85;
     let val = (b as u64) << 24;
     kani::assume(lo <= val && val < lo + 614125);
     let d = [d0 + b'!', d1 + b'!'];
@@ -133,7 +135,7 @@ fn a85_partial2<const KF: usize>() {
     let b: [u8; 2] = kani::any();
     let dg: [u8; 3] = kani::any();
     kani::assume(dg[0] < 85 && dg[1] < 85 && dg[2] < 85);
-    let lo = dg[0] as u64 * 52200625 + dg[1] as u64 * 614125 + dg[2] as u64 * 7225;
+    let lo = ((((dg[0] as u64 * 85 + dg[1] as u64) * 85 + dg[2] as u64) * 85) * 85);
     let val = ((b[0] as u64) << 24) | ((b[1] as u64) << 16);
     kani::assume(lo <= val && val < lo + 7225);
     let enc = [b'<', b'~', dg[0] + b'!', dg[1] + b'!', dg[2] + b'!', b'~', b'>'];
@@ -149,7 +151,7 @@ fn a85_partial3<const KF: usize>() {
     let b: [u8; 3] = kani::any();
     let dg: [u8; 4] = kani::any();
     kani::assume(dg[0] < 85 && dg[1] < 85 && dg[2] < 85 && dg[3] < 85);
-    let lo = dg[0] as u64 * 52200625 + dg[1] as u64 * 614125 + dg[2] as u64 * 7225 + dg[3] as u64 * 85;
+    let lo = (((dg[0] as u64 * 85 + dg[1] as u64) * 85 + dg[2] as u64) * 85 + dg[3] as u64) * 85;
     let val = ((b[0] as u64) << 24) | ((b[1] as u64) << 16) | ((b[2] as u64) << 8);
     kani::assume(lo <= val && val < lo + 85);
     let enc = [dg[0] + b'!', dg[1] + b'!', dg[2] + b'!', dg[3] + b'!', b'~', b'>'];
@@ -264,7 +266,7 @@ fn png_c1_k3_b8<const KF: usize>() { png_rt::<KF, 1, 3, 8, 3, 3, 8>(p_c1_k3_b8::
 fn png_c2_k1_b16<const KF: usize>() { png_rt::<KF, 2, 1, 16, 4, 2, 10>(p_c2_k1_b16::dict) }
 // @ob id=png_c8_k1_b1 unwind=9 unwindset="key_id.0:24,key_id.1:36" stubs=fmt,vec,params:p_c8_k1_b1 tier=thorough timeout=1500 mem=16 bound="PNG predictors 10-15, Columns 8, Colors 1, 1 bit (bpp 1, packed): 2 rows x 1 byte"
 fn png_c8_k1_b1<const KF: usize>() { png_rt::<KF, 8, 1, 1, 1, 1, 4>(p_c8_k1_b1::dict) }
-// @ob id=png_c3_k4_b4 unwind=9 unwindset="key_id.0:24,key_id.1:36" stubs=fmt,vec,params:p_c3_k4_b4 tier=thorough timeout=1500 mem=16 bound="PNG predictors 10-15, Columns 3, Colors 4, 4 bit (bpp 2, row = 6 bytes): 2 rows"
+// @ob id=png_c3_k4_b4 unwind=9 unwindset="key_id.0:24,key_id.1:36" stubs=fmt,vec,params:p_c3_k4_b4 tier=thorough timeout=1500 mem=30 bound="PNG predictors 10-15, Columns 3, Colors 4, 4 bit (bpp 2, row = 6 bytes): 2 rows"
 fn png_c3_k4_b4<const KF: usize>() { png_rt::<KF, 3, 4, 4, 6, 2, 14>(p_c3_k4_b4::dict) }
 
 // ---------------------------------------------------------------- TIFF predictor 2 (8-bit)
